@@ -488,9 +488,10 @@ func (m *monitor) decryptSweep(files []*dfile) {
 		}
 	})
 	th := time.Now()
+	m.headerLineSweep(ss)
 	m.headerSizeSweep(ss)
 	if os.Getenv("C12_TIMING") != "" {
-		fmt.Printf("   timing: header-size sweep %.2fs\n", time.Since(th).Seconds())
+		fmt.Printf("   timing: header-line+size sweeps %.2fs\n", time.Since(th).Seconds())
 	}
 	m.reportDiffers(ss)
 	for _, f := range files[:min(len(files), 3)] {
@@ -604,6 +605,28 @@ func (m *monitor) compareG(gk groupKey, layer string, f *dfile, s sched, bufio i
 func (m *monitor) reportDiffers(order []sched) {
 	m.gmu.Lock()
 	defer m.gmu.Unlock()
+	// sources that are not delivery schedules of the list (caller-side
+	// bufio.Readers, *os.File, pipes) follow in name order
+	{
+		known := map[string]bool{}
+		for _, s := range order {
+			known[s.name] = true
+		}
+		var extra []string
+		for _, g := range m.groups {
+			for n := range g.ran {
+				if !known[n] {
+					known[n] = true
+					extra = append(extra, n)
+				}
+			}
+		}
+		sort.Strings(extra)
+		order = append([]sched(nil), order...)
+		for _, n := range extra {
+			order = append(order, sched{name: n})
+		}
+	}
 	var gks []groupKey
 	for gk, g := range m.groups {
 		if len(g.failed) > 0 {
